@@ -178,15 +178,33 @@ func checkC01(c *Ctx) {
 	c.Check(f&fPos != 0, "C01-R1", "drawCell:addressed-before-payload", p.pos(payload[0].Pos()), fmt.Sprintf("on every path to the payload write: TGoto emitted or (t.cx==x and t.cy==y) [facts %04b]", f))
 
 	// ---- R2
-	firstDC := callsIn(draw, func(n string, _ *ssa.CallCommon) bool { return strings.HasSuffix(n, "tScreen).drawCell") })
+	// the cells are painted by drawCell calls in draw itself or in a helper it runs per row/region
+	// (`drawRow(y)`): drawDeep lists draw's instructions together with those helpers', each with the
+	// instruction of draw it is reached through (its anchor)
+	reachesDrawCell := func(f *ssa.Function) bool { return f != drawCell && staticReachFrom(p, f)[drawCell] }
+	drawDeep := deepInstrs(p, draw, 2, func(_ ssa.Instruction, callee *ssa.Function) bool { return reachesDrawCell(callee) })
+	var firstDC []ssa.Instruction // anchors in draw of every drawCell call
+	for _, d := range drawDeep {
+		if cc := callCommon(d.in); cc != nil && cc.StaticCallee() == drawCell {
+			firstDC = append(firstDC, d.anchor)
+		}
+	}
 	if len(firstDC) == 0 {
 		c.Undecided("C01-R2", "draw:drawCell", p.pos(draw.Pos()), "no drawCell call in draw")
 		return
 	}
+	domAll := func(st ssa.Instruction) bool {
+		for _, a := range firstDC {
+			if !instrDominates(st, a) {
+				return false
+			}
+		}
+		return true
+	}
 	for _, fld := range []string{"cx", "cy"} {
 		ok := false
 		for _, st := range storesTo(draw, "tcell.tScreen", fld) {
-			if k, isC := constInt(st.Val); isC && k == -1 && instrDominates(st, firstDC[0]) {
+			if k, isC := constInt(st.Val); isC && k == -1 && domAll(st) {
 				ok = true
 			}
 		}
@@ -194,7 +212,7 @@ func checkC01(c *Ctx) {
 	}
 	okSt := false
 	for _, st := range storesTo(draw, "tcell.tScreen", "curstyle") {
-		if strings.HasSuffix(valName(st.Val), "styleInvalid") && instrDominates(st, firstDC[0]) {
+		if strings.HasSuffix(valName(st.Val), "styleInvalid") && domAll(st) {
 			okSt = true
 		}
 	}
@@ -300,7 +318,10 @@ func checkC01(c *Ctx) {
 			bufOn = st
 		}
 	}
-	emitters := callsIn(draw, func(n string, _ *ssa.CallCommon) bool {
+	emitters := callsIn(draw, func(n string, cc *ssa.CallCommon) bool {
+		if callee := cc.StaticCallee(); callee != nil && reachesDrawCell(callee) {
+			return true
+		}
 		return strings.HasSuffix(n, "tScreen).hideCursor") || strings.HasSuffix(n, "tScreen).clearScreen") || strings.HasSuffix(n, "tScreen).drawCell") ||
 			strings.HasSuffix(n, "tScreen).showCursor") || strings.HasSuffix(n, "tScreen).TPuts")
 	})
@@ -438,8 +459,12 @@ func checkC01(c *Ctx) {
 
 	// ---- R8
 	okN := false
-	for _, call := range callsIn(draw, func(n string, _ *ssa.CallCommon) bool { return strings.HasSuffix(n, "CellBuffer).SetDirty") }) {
+	for _, d := range drawDeep {
+		call := d.in
 		cc := callCommon(call)
+		if cc == nil || !strings.HasSuffix(calleeName(cc), "CellBuffer).SetDirty") {
+			continue
+		}
 		v, isC := constBool(cc.Args[3])
 		if !isC || !v {
 			continue
@@ -453,7 +478,7 @@ func checkC01(c *Ctx) {
 			continue
 		}
 		wide, bounded := false, false
-		for _, a := range guardsAt(call.Block()) {
+		for _, a := range d.atoms() {
 			if strings.Contains(a.L, "drawCell") && a.Op == ">" && a.R == "1" {
 				wide = true
 			}
